@@ -149,8 +149,51 @@ fn de_guard<U: DeserializeOwned>(loc: &mut Loc, ty: &str, class: &str, f: Fmt, e
             viol(loc, &format!("C20/{}/deserialize-error{}", ty, class), || json!({"type": ty, "format": f.name(), "input": show(), "serialized": enc.show(), "error": e, "expected": "Ok(original value)"}));
             None
         }
-        Ok(Ok(u)) => Some(u),
+        Ok(Ok(u)) => {
+            // the same bytes through deserializers that cannot lend the input (reader, Value tree, a JSON
+            // string with an escape, bincode from a reader): they must succeed too
+            ALT_TICK.with(|t| {
+                let n = t.get();
+                t.set(n.wrapping_add(1));
+                if n % 8 == 0 {
+                    for (route, r) in decode_alt::<U>(enc) {
+                        match r {
+                            Ok(Ok(())) => {}
+                            Ok(Err(e)) => viol(loc, &format!("C20/{}/deserialize-error-through-{}{}", ty, route, class), || json!({"type": ty, "format": f.name(), "route": route, "input": show(), "serialized": enc.show(), "error": e, "expected": "Ok, as through from_str / deserialize(&[u8])"})),
+                            Err(p) => viol(loc, &format!("C20/{}/deserialize/panic@{}", ty, p.site()), || json!({"type": ty, "route": route, "input": show(), "panic": p.to_json()})),
+                        }
+                    }
+                }
+            });
+            Some(u)
+        }
     }
+}
+
+thread_local! {
+    static ALT_TICK: std::cell::Cell<u32> = const { std::cell::Cell::new(0) };
+}
+
+type AltResult = Result<Result<(), String>, crate::mon::PanicInfo>;
+
+fn decode_alt<U: DeserializeOwned>(e: &Enc) -> Vec<(&'static str, AltResult)> {
+    let mut out: Vec<(&'static str, AltResult)> = Vec::new();
+    match e {
+        Enc::Json(s) => {
+            out.push(("serde_json::from_reader", guard(|| serde_json::from_reader::<_, U>(s.as_bytes()).map(|_| ()).map_err(|e| e.to_string()))));
+            out.push(("serde_json::from_slice", guard(|| serde_json::from_slice::<U>(s.as_bytes()).map(|_| ()).map_err(|e| e.to_string()))));
+            out.push(("serde_json::from_value", guard(|| serde_json::from_str::<Value>(s).and_then(serde_json::from_value::<U>).map(|_| ()).map_err(|e| e.to_string()))));
+            if s.len() > 2 && s.starts_with('"') && s.is_ascii() {
+                // the first character of the string literal written as a \u escape: same string, not borrowable
+                let esc = format!("\"\\u{:04x}{}", s.as_bytes()[1] as u32, &s[2..]);
+                out.push(("serde_json::from_str(with an escape)", guard(|| serde_json::from_str::<U>(&esc).map(|_| ()).map_err(|e| e.to_string()))));
+            }
+        }
+        Enc::Bin(b) => {
+            out.push(("bincode::deserialize_from", guard(|| bincode::deserialize_from::<_, U>(&b[..]).map(|_| ()).map_err(|e| e.to_string()))));
+        }
+    }
+    out
 }
 
 /// One serialize + deserialize (one evaluation).
